@@ -240,3 +240,24 @@ Proof. exact falsy_input_dropped_witness. Qed.
 Theorem bare_input_raises_refuted :
   exists chain inputs, apply_to dict_kind chain st0 inputs None false = Exc E_Type.
 Proof. exact bare_input_raises_witness. Qed.
+
+(* ------------------------------------------------------------------ the repaired directory store (exact-name retirement) *)
+
+(** [dir_kind_fixed] is DataStoreDirectory after the repair of drop_not_completed / __contains__.
+    All theorems above are stated for any store kind [K] with [good_kind K U]; for the repaired
+    store this now includes identifiers that are suffixes of one another: *)
+Theorem repaired_directory_store_good_on_suffix_ids : good_kind dir_kind_fixed suffix_ids.
+Proof. exact dir_fixed_good_suffix_ids. Qed.
+
+Theorem repaired_directory_store_good_on_sample : good_kind dir_kind_fixed sample_ids.
+Proof. exact dir_fixed_good_sample. Qed.
+
+Theorem pinned_directory_store_not_good_on_suffix_ids : good_kind_b dir_kind suffix_ids = false.
+Proof. exact dir_pinned_not_good_suffix_ids. Qed.
+
+Theorem repaired_store_keeps_both_records :
+  exists s1 s2,
+    puts dir_kind_fixed st0 [([98;97], an_nc); ([97], an_obj)] = Ok s1 /\
+    puts dir_kind_fixed st0 [([97], an_obj); ([98;97], an_nc)] = Ok s2 /\
+    length (st_nc s1) = 1%nat /\ length (st_nc s2) = 1%nat /\ length (st_done s1) = 1%nat /\ length (st_done s2) = 1%nat.
+Proof. exact dir_fixed_suffix_ids_both_orders. Qed.
